@@ -12,4 +12,4 @@ Separate Extraction
   Model.stuckb Model.all_doneb Model.pool_okb Model.deps_okb Model.count_running Model.all_tids
   Model.edges Model.toposort Model.acyclicb Model.deps_of_id
   Model.Known_mixed Model.Known_big_stderr Model.Known_thread_error Model.Known_glob_on_absent_output
-  Model.fixed_P11.
+  Model.fixed_P11 Model.table_P14b Model.all_can_start.
